@@ -210,5 +210,6 @@ func init() {
 			r := edt.Check(misc, cfg, s)
 			run.Sample(map[string]any{"function": s.Func, "paths": r.Paths, "feasible": r.Feasible, "classes": r.ClassCount})
 		}
+		arithmeticFoundations(c)
 	}
 }
